@@ -87,4 +87,72 @@ def cli_create_flags(case, profile):
         shutil.rmtree(d, ignore_errors=True)
 
 
-PY_CMDS = {"cli_getset": cli_getset, "cli_create_flags": cli_create_flags}
+def _create(exe, d, files, threads, k, tag="x"):
+    paths = []
+    for fn, text in files:
+        p = os.path.join(d, fn)
+        with open(p, "wb") as f:
+            f.write(text.encode("latin-1") if isinstance(text, str) else bytes(text))
+        paths.append(p)
+    arc = os.path.join(d, tag + ".agc")
+    r = subprocess.run([exe, "create", "-o", arc, "-k", str(k), "-s", "4", "-m", "4", "-t", str(threads), "-v", "0"] + paths, capture_output=True, timeout=600)
+    return arc, r
+
+
+def _extract_all(exe, arc):
+    r = subprocess.run([exe, "listset", arc], capture_output=True, timeout=300)
+    if r.returncode != 0:
+        return None, r
+    out = []
+    for nm in r.stdout.decode().split():
+        g = subprocess.run([exe, "getset", arc, nm], capture_output=True, timeout=300)
+        if g.returncode != 0:
+            out.append([nm, None]); continue
+        recs = []
+        for line in g.stdout.decode().splitlines():
+            if line.startswith(">"):
+                recs.append([line[1:], ""])
+            elif recs:
+                recs[-1][1] += line.strip()
+        out.append([nm, recs])
+    return out, r
+
+
+def cli_create_roundtrip(case, profile):
+    """real `ragc create` on the given files, then listset + getset of every sample; compared with `want`"""
+    exe = ragc_bin(profile)
+    d = tempfile.mkdtemp(prefix="ragc-cli-")
+    try:
+        arc, r = _create(exe, d, case["files"], case.get("threads", 1), case.get("k", 3))
+        if b"panicked" in r.stderr:
+            return {"panic": r.stderr.decode()[-300:], "exit": r.returncode}
+        if r.returncode != 0:
+            return {"ok": case.get("may_fail", False), "exit": r.returncode, "why": "create failed", "stderr": r.stderr.decode()[-200:]}
+        got, rr = _extract_all(exe, arc)
+        if got is None:
+            return {"ok": False, "why": "create exited 0 but listset failed", "stderr": rr.stderr.decode()[-200:]}
+        return {"ok": got == case["want"], "got": got, "want": case["want"]}
+    finally:
+        shutil.rmtree(d, ignore_errors=True)
+
+
+def cli_create_identical(case, profile):
+    """two presentations of the same sequences: the archives must be byte-identical"""
+    exe = ragc_bin(profile)
+    d = tempfile.mkdtemp(prefix="ragc-cli-")
+    try:
+        os.makedirs(os.path.join(d, "a")); os.makedirs(os.path.join(d, "b"))
+        arcs = []
+        for tag, files in (("a", case["files_a"]), ("b", case["files_b"])):
+            arc, r = _create(exe, os.path.join(d, tag), files, case.get("threads", 1), case.get("k", 3), tag)
+            if b"panicked" in r.stderr:
+                return {"panic": r.stderr.decode()[-300:]}
+            if r.returncode != 0:
+                return {"ok": False, "why": f"create failed for presentation {tag}", "stderr": r.stderr.decode()[-200:]}
+            arcs.append(open(arc, "rb").read())
+        return {"ok": arcs[0] == arcs[1], "sizes": [len(a) for a in arcs]}
+    finally:
+        shutil.rmtree(d, ignore_errors=True)
+
+
+PY_CMDS = {"cli_getset": cli_getset, "cli_create_flags": cli_create_flags, "cli_create_roundtrip": cli_create_roundtrip, "cli_create_identical": cli_create_identical}
